@@ -64,6 +64,7 @@ def build_alphabet(patterns: list[tuple[str, int]], extra_chars: str) -> Alphabe
     from .relang import category_intervals
 
     atoms.append(list(category_intervals("space")))
+    atoms.append([(0, 127)])  # str.isascii
     return Alphabet(atoms)
 
 
@@ -97,6 +98,9 @@ class StrLang:
             return minimise(union(inter(view[1], self.lift(lang, view[2])), inter(complement(view[1]), self.lift(lang, view[3]))))
         if kind == "truth":
             raise Unsupported("a truth-valued local used as a string")
+        if kind == "lit":
+            # a literal string: the test does not depend on the parameter at all
+            return L.SIGMA_STAR if lang.accepts([self.alpha.cls_of(ch) for ch in view[1]]) else L.EMPTY
         parent = view[-1]
         if kind == "strip":
             # s.strip() in lang  <=>  s in WS* . (lang & T) . WS*, T = no leading/trailing whitespace
@@ -222,6 +226,23 @@ class StrLang:
                 if isinstance(tgt, ast.Name) and isinstance(v, ast.Name) and v.id in views:
                     views[tgt.id] = views[v.id]
                     continue
+                if isinstance(tgt, ast.Name) and isinstance(v, ast.Constant) and isinstance(v.value, str):
+                    views[tgt.id] = ("lit", v.value)
+                    continue
+                if isinstance(tgt, ast.Tuple) and isinstance(v, ast.Tuple) and len(tgt.elts) == len(v.elts) and all(isinstance(t, ast.Name) for t in tgt.elts):
+                    new = []
+                    for t, x in zip(tgt.elts, v.elts):
+                        if isinstance(x, ast.Constant) and isinstance(x.value, str):
+                            new.append(("lit", x.value))
+                        elif isinstance(x, ast.Name) and x.id in views:
+                            new.append(views[x.id])
+                        else:
+                            new = None
+                            break
+                    if new is not None:
+                        for t, w in zip(tgt.elts, new):
+                            views[t.id] = w
+                        continue
                 if (
                     isinstance(tgt, ast.Name)
                     and isinstance(v, ast.Call)
@@ -250,8 +271,64 @@ class StrLang:
                         pass
             if isinstance(st, ast.Pass):
                 continue
+            if isinstance(st, ast.For) and not st.orelse and isinstance(st.target, ast.Name) and isinstance(st.iter, ast.Name) and st.iter.id in views and len(st.body) == 1 and isinstance(st.body[0], ast.If) and not st.body[0].orelse:
+                # for ch in s: if <predicate on ch>: return <constant>   ==   "some character of s satisfies the predicate"
+                inner = st.body[0]
+                if len(inner.body) == 1 and isinstance(inner.body[0], ast.Return) and isinstance(inner.body[0].value, ast.Constant) and isinstance(inner.body[0].value.value, bool):
+                    cls = self._char_classes(inner.test, st.target.id)
+                    some = self.lift(minimise(L.concat(L.SIGMA_STAR, L.sym(cls), L.SIGMA_STAR)), views[st.iter.id])
+                    if inner.body[0].value.value:
+                        res = union(res, inter(pc, some))
+                    pc = minimise(inter(pc, complement(some)))
+                    continue
             raise Unsupported(f"statement `{ast.unparse(st)[:60]}`")
         return res, pc
+
+    def _char_classes(self, test, var: str) -> frozenset:
+        """Alphabet classes of the characters c (the loop variable) for which ``test`` is true."""
+        if isinstance(test, ast.UnaryOp) and isinstance(test.op, ast.Not):
+            return self.alpha.all - self._char_classes(test.operand, var)
+        if isinstance(test, ast.BoolOp):
+            parts = [self._char_classes(v, var) for v in test.values]
+            out = parts[0]
+            for x in parts[1:]:
+                out = (out & x) if isinstance(test.op, ast.And) else (out | x)
+            return out
+        if isinstance(test, ast.Call) and isinstance(test.func, ast.Attribute) and isinstance(test.func.value, ast.Name) and test.func.value.id == var and not test.args:
+            if test.func.attr == "isspace":
+                return self.WS
+            if test.func.attr == "isascii":
+                return self.alpha.classes_of_intervals([(0, 127)])
+        if isinstance(test, ast.Compare) and len(test.ops) == 1 and isinstance(test.left, ast.Name) and test.left.id == var:
+            o, b = test.ops[0], test.comparators[0]
+            if isinstance(o, (ast.In, ast.NotIn)):
+                chars = self._char_set(b)
+                c = self.alpha.classes_of_chars(chars)
+                return c if isinstance(o, ast.In) else self.alpha.all - c
+            if isinstance(o, (ast.Eq, ast.NotEq)):
+                ch = self._const_str(b)
+                if len(ch) == 1:
+                    c = self.alpha.classes_of_chars(ch)
+                    return c if isinstance(o, ast.Eq) else self.alpha.all - c
+        raise Unsupported(f"character test `{ast.unparse(test)[:50]}`")
+
+    def _char_set(self, e) -> str:
+        """A constant collection of single characters (string, or set/frozenset/tuple/list of 1-char strings)."""
+        try:
+            return self._const_str(e)
+        except Unsupported:
+            pass
+        try:
+            v = self.model.fold(self.mod, e)
+        except Exception as ex:  # noqa: BLE001
+            raise Unsupported(f"character set `{ast.unparse(e)[:40]}`") from ex
+        if isinstance(v, tuple) and v and v[0] in ("frozenset", "set") and len(v) == 2:
+            v = v[1]
+        if isinstance(v, str):
+            return v
+        if isinstance(v, (set, frozenset, list, tuple)) and all(isinstance(x, str) and len(x) == 1 for x in v):
+            return "".join(sorted(v))
+        raise Unsupported(f"character set `{ast.unparse(e)[:40]}`")
 
     def _const_str(self, e) -> str:
         if isinstance(e, ast.Constant) and isinstance(e.value, str):
@@ -406,8 +483,26 @@ class StrLang:
                     return self.lift(complement(self.BLANK), v)
                 if f.attr == "isspace" and not e.args:
                     return self.lift(inter(self.BLANK, L.nonempty()), v)
+                if f.attr == "isascii" and not e.args:
+                    return self.lift(L.star(self.alpha.classes_of_intervals([(0, 127)])), v)
                 if f.attr == "startswith" and len(e.args) == 1:
                     return self.lift(L.startswith(self._const_str(e.args[0])), v)
                 if f.attr == "endswith" and len(e.args) == 1:
                     return self.lift(L.endswith(self._const_str(e.args[0])), v)
+        if isinstance(e, ast.Call) and isinstance(e.func, ast.Attribute) and e.func.attr == "isdisjoint" and len(e.args) == 1 and not e.keywords:
+            # CHARS.isdisjoint(s) / set(s).isdisjoint(CHARS): no character of s is in CHARS
+            a, b = e.func.value, e.args[0]
+            if isinstance(a, ast.Call) and isinstance(a.func, ast.Name) and a.func.id in ("set", "frozenset") and len(a.args) == 1 and isinstance(a.args[0], ast.Name) and a.args[0].id in views:
+                a, b = b, a.args[0]
+            if isinstance(b, ast.Name) and b.id in views:
+                cls = self.alpha.classes_of_chars(self._char_set(a))
+                return self.lift(L.star(self.alpha.all - cls), views[b.id])
+        if isinstance(e, ast.Compare) and len(e.ops) == 1 and isinstance(e.ops[0], (ast.Eq, ast.NotEq)):
+            # s.split() == [s]: s is non-empty and contains no whitespace at all
+            a, b = e.left, e.comparators[0]
+            if isinstance(b, ast.Call):
+                a, b = b, a
+            if isinstance(a, ast.Call) and isinstance(a.func, ast.Attribute) and a.func.attr == "split" and not a.args and not a.keywords and isinstance(a.func.value, ast.Name) and a.func.value.id in views and isinstance(b, ast.List) and len(b.elts) == 1 and isinstance(b.elts[0], ast.Name) and b.elts[0].id == a.func.value.id:
+                r = self.lift(inter(L.star(self.alpha.all - self.WS), L.nonempty()), views[a.func.value.id])
+                return r if isinstance(e.ops[0], ast.Eq) else complement(r)
         raise Unsupported(f"expression `{ast.unparse(e)[:70]}`")
